@@ -466,8 +466,13 @@ Definition config_header (s : dstate) (refs : list ((string * string) * string *
                    ((if String.eqb scope "" then "" else scope ++ "/") ++ body)%string) (ds_store s) in
   OL [OL (map OS lines); OL (map OS (sort_strings emitted))].
 
+(* observation only: entries in (scope, selector) order -- the position of an entry in the store dict is not part of
+   any property (the real code re-inserts the entries of a re-registered class's methods) *)
+Definition skey_ltb (a b : string * string) : bool :=
+  if String.eqb (fst a) (fst b) then String.ltb (snd a) (snd b) else String.ltb (fst a) (fst b).
+Definition store_canon (s : dstate) := sort_stable (fun e : (string * string) * list (string * Z) => fst e) skey_ltb (ds_store s).
 Definition store_out (s : dstate) : out :=
-  OL (map (fun e => OL [OS (fst (fst e)); OS (snd (fst e)); OL (map (fun kv => OL [OS (fst kv); OZ (snd kv)]) (snd e))]) (ds_store s)).
+  OL (map (fun e => OL [OS (fst (fst e)); OS (snd (fst e)); OL (map (fun kv => OL [OS (fst kv); OZ (snd kv)]) (snd e))]) (store_canon s)).
 
 Definition run (p : list (string * pyobj) * list centry * list (dskip * list dstmt)) : out :=
   let '(univ, pre, calls) := p in
@@ -480,7 +485,7 @@ Definition run (p : list (string * pyobj) * list centry * list (dskip * list dst
                OL (flat_map (fun e => flat_map (fun kv =>
                      map (fun r => OL [OS (fst (fst e)); OS (snd (fst e)); OS (fst kv); OS (snd r)])
                          (filter (fun r => skey_eqb (fst (fst r)) (fst e) && String.eqb (snd (fst r)) (fst kv)) (snd sr)))
-                     (snd e)) (ds_store (fst sr)));
+                     (snd e)) (store_canon (fst sr)));
                (* after a failed parse the recorded imports are incomplete: the header is not compared *)
                if existsb (fun o => match o with OT "Err" _ => true | _ => false end) outs then OL []
                else config_header (fst sr) (snd sr)]).
